@@ -9,7 +9,14 @@
    ones, other ISD, short validity, duplicate issuer/serial, duplicate subject), runs the real
    TRC.Validate, TRC.Encode/DecodeTRC, and DecodeTRC on a payload marshalled by its own ASN.1 encoder
    (invalid payloads on the wire), and logs the outcomes.
-3. TLC (spec/TRCPayloadTrace.tla) judges: accepted => PayloadValid; valid and accepted => the round
+   Decoder direction: the DER encodings of 12 (quick) / 60 (thorough) accepted payloads are mutated
+   structure-aware (~160 mutations each: elements of the payload SEQUENCE and of the nested ID /
+   validity / votes / AS / certificate sequences dropped, duplicated, swapped, re-tagged, with
+   non-minimal and indefinite lengths, trailing data, boundary / non-minimal integers, BOOLEAN
+   encodings, other string and time forms) and handed to DecodeTRC; whatever it accepts is abstracted,
+   re-encoded and decoded again.
+3. TLC (spec/TRCPayloadTrace.tla) judges (DER mutations: accepted => PayloadValid of what was decoded, and
+   that value round-trips to itself; acceptance of a non-canonical encoding is drift only): accepted => PayloadValid; valid and accepted => the round
    trip yields the same payload.
 """
 import _pki
@@ -36,20 +43,23 @@ def run(c):
         if rb and "CodeSound" in rb.inv_violated:
             c.notes.append("model: a validation that only refuses quorum = 0 (as found before the fix) "
                            "violates CodeSound (negative quorum accepted)")
-        c.run_driver(drv, ["-mode", "payload", "-scn", scn, "-out", trace])
+        c.run_driver(drv, ["-mode", "payload", "-scn", scn, "-out", trace, "-der", 60 if c.thorough else 12])
     r = c.validate("TRCPayloadTrace", "TRCPayloadTrace.cfg", trace, timeout=1500)
     _pki.judge_table(c, r, trace)
     if not c.replay:
         _pki.need(c, r, "accepted", "payload accepted by TRC.Validate")
         _pki.need(c, r, "roundtrips", "encode/decode round trip")
+        _pki.need(c, r, "der_accepted", "mutated DER encoding accepted by DecodeTRC")
     _pki.drift(c, r)
     n, distinct = vlib.count_distinct(
-        trace, lambda e: None if e.get("ev") != "case" else
-        (e["p"] if (e["val"] == 1 or e["wire"] == 1) else None))
+        trace, lambda e: None if e.get("ev") not in ("case", "der") else
+        (e["p"] if (e["val"] == 1 or e["wire"] == 1) else None) if e.get("ev") == "case" else
+        ([e["p"], e["mut"]] if e.get("ev") == "der" and e["acc"] == 1 else None))
     c.cov["traces_validated_against_impl"] += 1
     c.cov["evaluations"] += n - 1
     c.cov["distinct_nontrivial"] += distinct
-    c.cov["exhaustive"] = not c.replay
+    c.cov["exhaustive"] = not c.replay    # of the abstract payload space; the DER mutations are a structured sample
+    c.cov["der_accepted"] = r.stats.get("der_accepted", 0)
     c.cov["rule"] = ("one evaluation = one abstract payload run through TRC.Validate, the wire decoder and "
                      "(if accepted) Encode/DecodeTRC; non-trivial = accepted by Validate or DecodeTRC (the "
                      "antecedent of the only-if statement); distinct abstract payloads; exhaustive = every "
